@@ -3562,6 +3562,8 @@ impl Scenario for Isolate {
         cfg.share_link_ids = stave && rng.chance(1, 2);
         // staves of one layer whose numbers differ in one bit (a filter mask slip selects both)
         cfg.alias_staves = rng.chance(1, 2);
+        // 1 in 4 (dispatch by FEE ID): FEE IDs that differ from another one of the input in a reserved bit only
+        cfg.reserved_bit_twin = stave && rng.chance(1, 4);
         // more staves than an 8-bit index can tell apart (one case of the quick tier, 1 in 1000 otherwise):
         // 257..300 FEE IDs, each with its own validator
         let many_staves = stave && match _tier {
@@ -3581,6 +3583,9 @@ impl Scenario for Isolate {
         let mut label = CHECK_MODES[mode_i].join(" ");
         if cfg.share_link_ids {
             label.push_str(" shared-link-ids");
+        }
+        if cfg.reserved_bit_twin {
+            label.push_str(" reserved-bit-twin");
         }
         if many_staves {
             label.push_str(" more-than-256-staves");
